@@ -75,7 +75,8 @@ Step ==
     [] e = "h_end" ->      \* snapshot of one pool at quiescence
          /\ bad' = IF Cardinality(conns) > Cur.size THEN "SizeBound"
                    ELSE IF Cur.closed /\ conns # {} THEN "ClosedEmpty"
-                   ELSE IF dead \cap conns # {} THEN "ReportedNotInPool"
+                   ELSE IF dead \cap conns # {} THEN (IF Cur.q = "killed-before-add" THEN "ReportedNotInPool_AddedDead"
+                                                      ELSE "ReportedNotInPool_NotRemoved")
                    ELSE IF Cur.closed /\ open # {} THEN "NoLeakAfterClose"
                    ELSE IF ~Cur.closed /\ ~(open \subseteq conns) THEN "NoStray"
                    ELSE IF ~Cur.closed /\ ~(conns \subseteq open) THEN "PoolConnsAlive"
@@ -86,12 +87,20 @@ Step ==
          /\ bad' = IF open # {} THEN "NoLeakAfterClose" ELSE IF conns # {} THEN "ClosedEmpty" ELSE "none"
          /\ drift' = "none"
          /\ UNCHANGED <<cnt, fil, clo>>
-    [] e = "s_end" ->      \* Session.Close returned; observations after a bounded wait
+    [] e = "s_end" ->      \* every Session.Close call returned (or not); observations after a bounded wait
          /\ bad' = IF Cur.q = "hang" THEN "CloseReturns"
                    ELSE IF open # {} THEN "AllConnsClosedAfterClose"
-                   ELSE IF Cur.gor > 0 THEN "GoroutinesExit"
+                   ELSE IF Cur.q = "caller-stuck" THEN "CallersReturn"
                    ELSE IF Cur.q # "session-closed" THEN "QueryAfterClose"
                    ELSE "none"
+         /\ drift' = "none"
+         /\ UNCHANGED <<cnt, fil, clo>>
+    [] e = "b_end" ->      \* all sessions of a batch are closed: driver goroutines still alive after a bounded wait
+         /\ bad' = IF Cur.gor > 0 THEN "GoroutinesExit" ELSE "none"
+         /\ drift' = "none"
+         /\ UNCHANGED <<cnt, fil, clo>>
+    [] e = "d_end" ->      \* a behaviour replayed on a refreshDebouncer: did every stop() return
+         /\ bad' = IF Cur.q = "hang" THEN "StopReturns" ELSE "none"
          /\ drift' = "none"
          /\ UNCHANGED <<cnt, fil, clo>>
     [] OTHER ->
